@@ -134,6 +134,54 @@ Section Chat.
     chat_ns_final tools (ns_fold [] zero_msg (chat_stream (mkCc false tools) o)).
 End Chat.
 
+(** ** arbitrary callback traces.  [rout] is what llm.LlamaServer.Completion promises (its contract: content callbacks, then
+    a final response and nil, or an error and no final response).  The handlers themselves do not rely on it: they
+    forward every callback and append an error record when Completion returns an error.  A trace is any sequence of
+    callbacks with any return value - e.g. a final response followed by more callbacks, or by an error return
+    ("done then fault"). *)
+Inductive cev := CChunk (c : str) | CFinal (content : str) (r : reason) (c : counts).
+Record ctrace := mkTrace { events : list cev; returned : option str }.
+
+Definition trace_of (o : rout) : ctrace :=
+  match ending o with
+  | FDone c r n => mkTrace (map CChunk (chunks o) ++ [CFinal c r n]) None
+  | FErr m => mkTrace (map CChunk (chunks o)) (Some m)
+  | FSilent => mkTrace (map CChunk (chunks o)) None
+  end.
+
+(** Completion's contract on a trace: at most one final response, nothing after it, and an error return iff there is none *)
+Definition is_final (e : cev) : bool := match e with CFinal _ _ _ => true | CChunk _ => false end.
+Definition finals (t : ctrace) : nat := length (filter is_final (events t)).
+Definition errs (t : ctrace) : nat := match returned t with Some _ => 1 | None => 0 end.
+Definition contractb (t : ctrace) : bool :=
+  match rev (events t), returned t with
+  | CFinal _ _ _ :: before, None => negb (existsb is_final before)
+  | evs, Some _ => negb (existsb is_final evs)
+  | _, None => false
+  end.
+
+Fixpoint gen_trace_items (cfg : gcfg) (sb : str) (evs : list cev) : list nrec :=
+  match evs with
+  | [] => []
+  | CChunk c :: t => Msg c [] false [] zeroc None :: gen_trace_items cfg (sb ++ c) t
+  | CFinal content r n :: t => gen_done cfg (sb ++ content) content r n ++ gen_trace_items cfg (sb ++ content) t
+  end.
+Definition ret_items (t : ctrace) : list nrec := match returned t with Some m => [ErrRec m] | None => [] end.
+Definition gen_trace_stream (cfg : gcfg) (t : ctrace) : list nrec := gen_trace_items cfg [] (events t) ++ ret_items t.
+
+Section ChatTrace.
+  Variable P : str -> option (list (str * str)).
+  Fixpoint chat_trace_items (cfg : ccfg) (st : str * nat) (evs : list cev) : list nrec :=
+    match evs with
+    | [] => []
+    | CChunk c :: t => let '(st', out) := chat_step P cfg st c false [] zeroc in out ++ chat_trace_items cfg st' t
+    | CFinal content r n :: t =>
+        let '(st', out) := chat_step P cfg st content true (reason_str r) n in out ++ chat_trace_items cfg st' t
+    end.
+  Definition chat_trace_stream (cfg : ccfg) (t : ctrace) : list nrec :=
+    chat_trace_items cfg ([], 0) (events t) ++ ret_items t.
+End ChatTrace.
+
 (** ** OpenAI writers (openai/openai.go).  The middleware turns the request into the native one
     (Stream always set) and wraps the response writer: every Write of the handler is translated. *)
 Inductive sse :=
